@@ -407,3 +407,769 @@ theorem MEff.value_stale {cs cs' : Cells} {m m' : MMap} (he : MEff cs m cs' m') 
     rw [hcs, bumpN_other _ _ hne, bumpN_same]; omega
 
 end Momo.Ver
+
+namespace Momo.Ver
+
+/-! ### HashMultiMap: the two-object world, uses of handles, histories -/
+
+/-- the key iterator an entry point requires to be valid (`MakeIterator(keyIter, 0)` with an empty key iterator returns the
+    end iterator without looking at it, HashMultiMap.h:1219) -/
+def MOp.khandle : MOp → Option HPos
+  | .kderef h => some h
+  | .kinc h _ => some h
+  | .addAt _ h _ => some h
+  | .addKey _ h _ _ => some h
+  | .removeAt _ h _ _ => some h
+  | .removeValues _ h _ => some h
+  | .removeKey _ h _ => some h
+  | .resetKey _ h _ => some h
+  | .makeIt _ h i _ => if h.elem.isSome || i != 0 then some h else none
+  | .checkKey _ h _ => some h
+  | _ => none
+
+/-- the value iterator an entry point takes -/
+def MOp.vhandle : MOp → Option VIt
+  | .vderef it => some it
+  | .vinc it _ => some it
+  | .remove _ it _ => some it
+  | .makeMutable _ it => some it
+  | .checkIt _ it _ => some it
+  | _ => none
+
+/-- the object an entry point that takes a handle is called on (none: called on the iterator itself) -/
+def MOp.on : MOp → Option Bool
+  | .addAt o _ _ => some o
+  | .addKey o _ _ _ => some o
+  | .removeAt o _ _ _ => some o
+  | .remove o _ _ => some o
+  | .removeValues o _ _ => some o
+  | .removeKey o _ _ => some o
+  | .resetKey o _ _ => some o
+  | .makeIt o _ _ _ => some o
+  | .makeMutable o _ => some o
+  | .checkIt o _ _ => some o
+  | .checkKey o _ _ => some o
+  | _ => none
+
+namespace MWorld
+
+/-- **stale key iterator**: every entry point that needs it throws and the world is unchanged -/
+theorem key_stale_rejected (w : MWorld) (op : MOp) (h : HPos) (hh : op.khandle = some h) (hs : Stale h.kp w.cs) :
+    w.step op = (w, none) := by
+  have r := fun m => MMap.key_uses_rejected m w.cs h hs.check (fun ae => hs.checkAt _ ae)
+  cases op <;> simp only [MOp.khandle, Option.some.injEq, reduceCtorEq] at hh
+  case kderef h' => subst hh; simp only [step, (r _).1, Option.map_none]
+  case kinc h' n => subst hh; simp only [step, (r w.a).2.1, Option.map_none]
+  case addAt o h' v => subst hh; simp only [step, (r _).2.2.1]
+  case addKey o h' k nc => subst hh; simp only [step, (r _).2.2.2.1]
+  case removeAt o h' i to => subst hh; simp only [step, (r _).2.2.2.2.1]
+  case removeValues o h' to => subst hh; simp only [step, (r _).2.2.2.2.2.1]
+  case removeKey o h' nx => subst hh; simp only [step, (r _).2.2.2.2.2.2.1]
+  case resetKey o h' k => subst hh; simp only [step, (r _).2.2.2.2.2.2.2.1]
+  case makeIt o h' i to =>
+    split at hh
+    · rename_i hc
+      simp only [Option.some.injEq] at hh; subst hh
+      have := (r (w.obj o)).2.2.2.2.2.2.2.2.1 i to (by
+        simp only [Bool.or_eq_true, bne_iff_ne, ne_eq] at hc
+        exact hc)
+      simp only [step, this, Option.map_none]
+    · simp at hh
+  case checkKey o h' ae => subst hh; simp only [step, (r _).2.2.2.2.2.2.2.2.2, Option.map_none]
+
+/-- **stale value iterator** (its value version or its key version moved): every entry point that takes it throws -/
+theorem value_stale_rejected (w : MWorld) (op : MOp) (it : VIt) (hh : op.vhandle = some it) (hv : it.vidx.isSome = true)
+    (hs : Stale it.vp w.cs ∨ Stale it.kit.kp w.cs) : w.step op = (w, none) := by
+  have r := fun m => MMap.value_uses_rejected m w.cs it hv hs
+  cases op <;> simp only [MOp.vhandle, Option.some.injEq, reduceCtorEq] at hh <;> subst hh
+  case vderef => simp only [step, (r _).1, Option.map_none]
+  case vinc to => simp only [step, (r w.a).2.1, Option.map_none]
+  case remove o to => simp only [step, (r _).2.2.1]
+  case makeMutable o => simp only [step, (r _).2.2.2.1, Option.map_none]
+  case checkIt o ae => simp only [step, (r _).2.2.2.2, Option.map_none]
+
+
+/-- **key iterator of another container**: an entry point of object `o` rejects a key iterator whose keeper points to the
+    crew of a different nested map -/
+theorem foreign_key_rejected (w : MWorld) (op : MOp) (h : HPos) (o : Bool) (c' : Nat) (hh : op.khandle = some h)
+    (ht : op.on = some o) (hc : h.kp.cell = some c') (hne : c' ≠ (w.obj o).kcell) : w.step op = (w, none) := by
+  have hf : ∀ ae, h.kp.checkAt w.cs (w.obj o).kcell ae = false := fun ae => foreign_checkAt hc hne ae
+  have hm : (w.obj o).mutKey w.cs h = none := by simp [MMap.mutKey, hf, chk]
+  cases op <;> simp only [MOp.khandle, MOp.on, Option.some.injEq, reduceCtorEq] at hh ht
+  case addAt o' h' v => subst hh; subst ht; simp only [step, MMap.addAt, hm, Option.bind_eq_bind, Option.bind_none]
+  case addKey o' h' k nc => subst hh; subst ht; simp [step, MMap.addKey, hf, chk]
+  case removeAt o' h' i to =>
+    subst hh; subst ht
+    have : (w.obj o').removeAt w.cs h' i to = none := by
+      unfold MMap.removeAt
+      cases (w.obj o').kderef w.cs h' with
+      | none => rfl
+      | some kc => cases chk (decide (i < kc.2)) <;> simp [hm]
+    simp only [step, this]
+  case removeValues o' h' to => subst hh; subst ht; simp only [step, MMap.removeValues, hm, Option.bind_eq_bind, Option.bind_none]
+  case removeKey o' h' nx => subst hh; subst ht; simp only [step, MMap.removeKey, hm, Option.bind_eq_bind, Option.bind_none]
+  case resetKey o' h' k => subst hh; subst ht; simp [step, MMap.resetKey, hf, chk]
+  case makeIt o' h' i to =>
+    subst ht
+    split at hh
+    · rename_i hcond
+      simp only [Option.some.injEq] at hh; subst hh
+      have hb : (h'.elem.isNone && i == 0) = false := by
+        simp only [Bool.or_eq_true, bne_iff_ne, ne_eq] at hcond
+        rcases hcond with h1 | h1
+        · cases he : h'.elem <;> simp_all
+        · simp [h1]
+      simp [step, MMap.makeIt, hb, hf, chk]
+    · simp at hh
+  case checkKey o' h' ae => subst hh; subst ht; simp [step, MMap.checkKey, hf, chk]
+
+/-- **value iterator of another container** (value keeper or key keeper belongs to another object) -/
+theorem foreign_value_rejected (w : MWorld) (op : MOp) (it : VIt) (o : Bool) (hh : op.vhandle = some it)
+    (ht : op.on = some o) (hv : it.vidx.isSome = true)
+    (hc : (∃ c', it.vp.cell = some c' ∧ c' ≠ (w.obj o).vcell) ∨ (∃ c', it.kit.kp.cell = some c' ∧ c' ≠ (w.obj o).kcell)) :
+    w.step op = (w, none) := by
+  obtain ⟨i, hi⟩ := Option.isSome_iff_exists.mp hv
+  have hn : it.vidx.isNone = false := by simp [hi]
+  have key : (w.obj o).remove w.cs it = (fun _ => none) ∧ (w.obj o).makeMutable w.cs it = none ∧
+      ∀ ae, (w.obj o).checkIt w.cs it ae = none := by
+    rcases hc with ⟨c', h1, h2⟩ | ⟨c', h1, h2⟩
+    · have hf : ∀ ae, it.vp.checkAt w.cs (w.obj o).vcell ae = false := fun ae => foreign_checkAt h1 h2 ae
+      refine ⟨?_, ?_, ?_⟩
+      · funext to; simp [MMap.remove, hf, chk]
+      · simp [MMap.makeMutable, hn, hf, chk]
+      · intro ae
+        unfold MMap.checkIt
+        cases chk (it.kit.kp.checkAt w.cs (w.obj o).kcell ae) <;> simp [hi, hf, chk]
+    · have hf : ∀ ae, it.kit.kp.checkAt w.cs (w.obj o).kcell ae = false := fun ae => foreign_checkAt h1 h2 ae
+      have hm : (w.obj o).mutKey w.cs it.kit = none := by simp [MMap.mutKey, hf, chk]
+      refine ⟨?_, ?_, ?_⟩
+      · funext to; unfold MMap.remove; cases chk (it.vp.checkAt w.cs (w.obj o).vcell false) <;> simp [hi, hm]
+      · unfold MMap.makeMutable; simp only [hn, Bool.false_eq_true, ↓reduceIte]
+        cases chk (it.vp.checkAt w.cs (w.obj o).vcell false) <;> simp [hm]
+      · intro ae; simp [MMap.checkIt, hf, chk]
+  cases op <;> simp only [MOp.vhandle, MOp.on, Option.some.injEq, reduceCtorEq] at hh ht <;> subst hh <;> subst ht
+  case remove to => simp only [step, key.1]
+  case makeMutable => simp only [step, key.2.1, Option.map_none]
+  case checkIt ae => simp only [step, key.2.2 ae, Option.map_none]
+
+end MWorld
+end Momo.Ver
+namespace Momo.Ver
+
+/-- `cap = 0` (the nested map has no buckets) only while there is no key -/
+def MMap.CapI (m : MMap) : Prop := m.cap = 0 → m.kv = []
+
+/-- the capacity an insertion reports afterwards is positive -/
+def MOp.CapOK : MOp → Prop
+  | .add _ _ _ nc => nc ≠ 0
+  | .insertKey _ _ nc => nc ≠ 0
+  | .addKey _ _ _ nc => nc ≠ 0
+  | _ => True
+
+namespace MMap
+
+theorem setVals_capI {m : MMap} (h : m.CapI) (k : Nat) (vs : List Nat) : (m.setVals k vs).CapI := by
+  intro hc
+  have := h hc
+  simp [setVals, this]
+
+theorem filter_capI {m : MMap} (h : m.CapI) (p : Nat × List Nat → Bool) : ({ m with kv := m.kv.filter p } : MMap).CapI := by
+  intro hc
+  have := h hc
+  simp [this]
+
+theorem map_capI {m : MMap} (h : m.CapI) (f : Nat × List Nat → Nat × List Nat) : ({ m with kv := m.kv.map f } : MMap).CapI := by
+  intro hc
+  have := h hc
+  simp [this]
+
+theorem add_capI {m : MMap} (h : m.CapI) (cs : Cells) (k v nc : Nat) (hn : nc ≠ 0) : (m.add cs k v nc).2.1.CapI := by
+  unfold add
+  split
+  · exact setVals_capI h _ _
+  · intro hc; exact absurd hc hn
+
+theorem insertKey_capI {m : MMap} (h : m.CapI) (cs : Cells) (k nc : Nat) (hn : nc ≠ 0) : (m.insertKey cs k nc).2.1.CapI := by
+  unfold insertKey
+  split
+  · exact h
+  · intro hc; exact absurd hc hn
+
+theorem addAt_capI {m : MMap} (h : m.CapI) {cs : Cells} {hp : HPos} {v : Nat} {r} (hr : m.addAt cs hp v = some r) : r.2.1.CapI := by
+  unfold addAt at hr
+  cases hk : m.mutKey cs hp <;> simp [hk] at hr
+  subst hr
+  exact setVals_capI h _ _
+
+theorem addKey_capI {m : MMap} {cs : Cells} {hp : HPos} {k nc : Nat} (hn : nc ≠ 0) {r} (hr : m.addKey cs hp k nc = some r) : r.2.1.CapI := by
+  unfold addKey at hr
+  cases h1 : chk (hp.kp.checkAt cs m.kcell false) <;> simp [h1] at hr
+  cases h2 : chk hp.elem.isNone <;> simp [h2] at hr
+  subst hr
+  intro hc; exact absurd hc hn
+
+theorem removeAt_capI {m : MMap} (h : m.CapI) {cs : Cells} {hp : HPos} {i : Nat} {to} {r} (hr : m.removeAt cs hp i to = some r) : r.2.1.CapI := by
+  unfold removeAt at hr
+  cases hk : m.kderef cs hp <;> simp [hk] at hr
+  rename_i kc
+  cases h2 : chk (decide (i < kc.2)) <;> simp [h2] at hr
+  cases h3 : m.mutKey cs hp <;> simp [h3] at hr
+  subst hr
+  exact setVals_capI h _ _
+
+theorem remove_capI {m : MMap} (h : m.CapI) {cs : Cells} {it : VIt} {to} {r} (hr : m.remove cs it to = some r) : r.2.1.CapI := by
+  unfold remove at hr
+  cases h1 : chk (it.vp.checkAt cs m.vcell false) <;> simp [h1] at hr
+  cases h2 : it.vidx <;> simp [h2] at hr
+  cases h3 : m.mutKey cs it.kit <;> simp [h3] at hr
+  subst hr
+  exact setVals_capI h _ _
+
+theorem removeValues_capI {m : MMap} (h : m.CapI) {cs : Cells} {hp : HPos} {to} {r} (hr : m.removeValues cs hp to = some r) : r.2.1.CapI := by
+  unfold removeValues at hr
+  cases h3 : m.mutKey cs hp <;> simp [h3] at hr
+  subst hr
+  exact setVals_capI h _ _
+
+theorem removeKey_capI {m : MMap} (h : m.CapI) {cs : Cells} {hp : HPos} {nx} {r} (hr : m.removeKey cs hp nx = some r) : r.2.1.CapI := by
+  unfold removeKey at hr
+  cases h3 : m.mutKey cs hp <;> simp [h3] at hr
+  cases h4 : chk (m.cap != 0) <;> simp [h4] at hr
+  subst hr
+  exact filter_capI h _
+
+theorem removeKeyByKey_capI {m : MMap} (h : m.CapI) (cs : Cells) (k : Nat) : (m.removeKeyByKey cs k).2.1.CapI := by
+  unfold removeKeyByKey
+  split
+  · exact filter_capI h _
+  · exact h
+
+theorem removeIf_capI {m : MMap} (h : m.CapI) (cs : Cells) (mo r : Nat) : (m.removeIf cs mo r).2.1.CapI :=
+  map_capI h _
+
+theorem clear_capI (m : MMap) (cs : Cells) : (m.clear cs).2.CapI := fun _ => rfl
+
+theorem resetKey_facts {m : MMap} (h : m.CapI) {cs : Cells} {hp : HPos} {k : Nat} {m'} (hr : m.resetKey cs hp k = some m') :
+    m'.CapI ∧ m'.kcell = m.kcell ∧ m'.vcell = m.vcell := by
+  unfold resetKey at hr
+  cases h1 : chk (hp.kp.checkAt cs m.kcell false) <;> simp [h1] at hr
+  cases h2 : hp.elem <;> simp [h2] at hr
+  subst hr
+  exact ⟨map_capI h _, rfl, rfl⟩
+
+/-- removing a stored key changes the key list -/
+theorem filter_key_ne {l : List (Nat × List Nat)} {k : Nat} {vs : List Nat} (h : l.lookup k = some vs) :
+    l.filter (fun p => !(p.1 == k)) ≠ l := by
+  have hlt : (l.filter (fun p => !(p.1 == k))).length < l.length := by
+    induction l with
+    | nil => simp at h
+    | cons a as ih =>
+      obtain ⟨a1, a2⟩ := a
+      by_cases hk : k = a1
+      · subst hk
+        simp only [List.filter_cons, beq_self_eq_true, Bool.not_true, Bool.false_eq_true, ↓reduceIte, List.length_cons]
+        exact Nat.lt_succ_of_le (List.length_filter_le _ _)
+      · have hk' : (k == a1) = false := by simp [hk]
+        have hk'' : (a1 == k) = false := by
+          have : ¬ a1 = k := fun e => hk e.symm
+          simp [this]
+        simp only [List.lookup_cons, hk'] at h
+        simp only [List.filter_cons, hk'', Bool.not_false, ↓reduceIte, List.length_cons]
+        exact Nat.succ_lt_succ (ih h)
+  intro e
+  rw [e] at hlt
+  exact Nat.lt_irrefl _ hlt
+
+end MMap
+
+namespace MWorld
+
+/-- the four version cells of the two objects are pairwise distinct -/
+def WF (w : MWorld) : Prop :=
+  w.a.kcell ≠ w.a.vcell ∧ w.a.kcell ≠ w.b.kcell ∧ w.a.kcell ≠ w.b.vcell ∧
+  w.a.vcell ≠ w.b.kcell ∧ w.a.vcell ≠ w.b.vcell ∧ w.b.kcell ≠ w.b.vcell
+
+def CapInv (w : MWorld) : Prop := w.a.CapI ∧ w.b.CapI
+
+/-- (key list, nested capacity) of the object whose nested map owns key cell `kc` -/
+def kshape (w : MWorld) (kc : Nat) : Option (List Nat × Nat) := (w.byKeyCell kc).map (fun m => (m.keysOf, m.cap))
+/-- complete contents of that object -/
+def content (w : MWorld) (kc : Nat) : Option (List (Nat × List Nat)) := (w.byKeyCell kc).map (·.kv)
+/-- its value-version cell -/
+def vcellOf (w : MWorld) (kc : Nat) : Option Nat := (w.byKeyCell kc).map (·.vcell)
+
+/-- facts about one step that the history theorems need -/
+structure StepFacts (w w' : MWorld) : Prop where
+  wf : w'.WF
+  inv : w'.CapInv
+  mono : ∀ c, w.cs c ≤ w'.cs c
+  vcell : ∀ kc, w'.vcellOf kc = w.vcellOf kc
+  kbump : ∀ kc, w'.kshape kc ≠ w.kshape kc → w.cs kc < w'.cs kc
+  vbump : ∀ kc vc, w.vcellOf kc = some vc → w'.content kc ≠ w.content kc → w.cs kc < w'.cs kc ∨ w.cs vc < w'.cs vc
+
+theorem StepFacts.refl (w : MWorld) (hw : w.WF) (hi : w.CapInv) : StepFacts w w :=
+  ⟨hw, hi, fun _ => Nat.le_refl _, fun _ => rfl, fun _ h => absurd rfl h, fun _ _ _ h => absurd rfl h⟩
+
+theorem bump2_k {cs : Cells} {k v nk nv : Nat} (hne : k ≠ v) : bumpN (bumpN cs k nk) v nv k = cs k + nk := by
+  rw [bumpN_other _ _ hne, bumpN_same]
+theorem bump2_v {cs : Cells} {k v nk nv : Nat} (hne : k ≠ v) : bumpN (bumpN cs k nk) v nv v = cs v + nv := by
+  rw [bumpN_same, bumpN_other _ _ (fun e => hne e.symm)]
+theorem bump2_other {cs : Cells} {k v nk nv c : Nat} (h1 : c ≠ k) (h2 : c ≠ v) : bumpN (bumpN cs k nk) v nv c = cs c := by
+  rw [bumpN_other _ _ h2, bumpN_other _ _ h1]
+
+/-- updating object `o` with an `MEff` effect -/
+theorem facts_of_eff (w : MWorld) (hw : w.WF) (hi : w.CapInv) (o : Bool) {cs' : Cells} {m' : MMap}
+    (he : MEff w.cs (w.obj o) cs' m') (hc : m'.CapI) : StepFacts w (w.setObj o cs' m') := by
+  obtain ⟨hk, hv, nk, nv, hcs, hpk, hpv⟩ := he
+  obtain ⟨w1, w2, w3, w4, w5, w6⟩ := hw
+  cases o
+  · simp only [obj, Bool.false_eq_true, ↓reduceIte] at hk hv hcs hpk hpv
+    refine ⟨?_, ⟨hc, hi.2⟩, ?_, ?_, ?_, ?_⟩
+    · simp only [setObj, Bool.false_eq_true, ↓reduceIte, WF, hk, hv]; exact ⟨w1, w2, w3, w4, w5, w6⟩
+    · intro c; simp only [setObj, Bool.false_eq_true, ↓reduceIte]; rw [hcs]
+      exact Nat.le_trans (le_bumpN _ _ _ _) (le_bumpN _ _ _ _)
+    · intro kc
+      simp only [vcellOf, byKeyCell, setObj, Bool.false_eq_true, ↓reduceIte, hk]
+      by_cases h : w.a.kcell = kc <;> simp [h, hv]
+    · intro kc hne
+      simp only [kshape, byKeyCell, setObj, Bool.false_eq_true, ↓reduceIte, hk] at hne ⊢
+      by_cases h : w.a.kcell = kc
+      · simp only [h, beq_self_eq_true, ↓reduceIte, Option.map_some, ne_eq, Option.some.injEq, Prod.mk.injEq, not_and] at hne
+        have : m'.keysOf ≠ w.a.keysOf ∨ m'.cap ≠ w.a.cap := by
+          by_cases hkk : m'.keysOf = w.a.keysOf
+          · right; exact hne hkk
+          · left; exact hkk
+        have hpos := hpk this
+        rw [hcs, ← h, bump2_k w1]; omega
+      · have : (w.a.kcell == kc) = false := by simp [h]
+        simp [this] at hne
+    · intro kc vc hvc hne
+      simp only [content, vcellOf, byKeyCell, setObj, Bool.false_eq_true, ↓reduceIte, hk] at hne hvc ⊢
+      by_cases h : w.a.kcell = kc
+      · simp only [h, beq_self_eq_true, ↓reduceIte, Option.map_some, ne_eq, Option.some.injEq] at hne hvc
+        have hpos := hpv hne
+        rw [hcs, ← h, ← hvc, bump2_k w1, bump2_v w1]; omega
+      · have : (w.a.kcell == kc) = false := by simp [h]
+        simp [this] at hne
+  · simp only [obj, ↓reduceIte] at hk hv hcs hpk hpv
+    refine ⟨?_, ⟨hi.1, hc⟩, ?_, ?_, ?_, ?_⟩
+    · simp only [setObj, ↓reduceIte, WF, hk, hv]; exact ⟨w1, w2, w3, w4, w5, w6⟩
+    · intro c; simp only [setObj, ↓reduceIte]; rw [hcs]
+      exact Nat.le_trans (le_bumpN _ _ _ _) (le_bumpN _ _ _ _)
+    · intro kc
+      simp only [vcellOf, byKeyCell, setObj, ↓reduceIte, hk]
+      by_cases h : w.a.kcell = kc <;> by_cases h' : w.b.kcell = kc <;> simp [h, h', hv]
+    · intro kc hne
+      simp only [kshape, byKeyCell, setObj, ↓reduceIte, hk] at hne ⊢
+      by_cases h : w.a.kcell = kc
+      · simp [h] at hne
+      · have ha : (w.a.kcell == kc) = false := by simp [h]
+        by_cases h' : w.b.kcell = kc
+        · simp only [ha, Bool.false_eq_true, ↓reduceIte, h', beq_self_eq_true, Option.map_some, ne_eq, Option.some.injEq,
+            Prod.mk.injEq, not_and] at hne
+          have : m'.keysOf ≠ w.b.keysOf ∨ m'.cap ≠ w.b.cap := by
+            by_cases hkk : m'.keysOf = w.b.keysOf
+            · right; exact hne hkk
+            · left; exact hkk
+          have hpos := hpk this
+          rw [hcs, ← h', bump2_k w6]; omega
+        · have hb : (w.b.kcell == kc) = false := by simp [h']
+          simp [ha, hb] at hne
+    · intro kc vc hvc hne
+      simp only [content, vcellOf, byKeyCell, setObj, ↓reduceIte, hk] at hne hvc ⊢
+      by_cases h : w.a.kcell = kc
+      · simp [h] at hne
+      · have ha : (w.a.kcell == kc) = false := by simp [h]
+        by_cases h' : w.b.kcell = kc
+        · simp only [ha, Bool.false_eq_true, ↓reduceIte, h', beq_self_eq_true, Option.map_some, ne_eq, Option.some.injEq] at hne hvc
+          have hpos := hpv hne
+          rw [hcs, ← h', ← hvc, bump2_k w6, bump2_v w6]; omega
+        · have hb : (w.b.kcell == kc) = false := by simp [h']
+          simp [ha, hb] at hne
+
+theorem obj_capI (w : MWorld) (hi : w.CapInv) (o : Bool) : (w.obj o).CapI := by
+  cases o
+  · exact hi.1
+  · exact hi.2
+
+theorem byKeyCell_swap (w : MWorld) (hw : w.WF) (kc : Nat) :
+    ({ w with a := w.b, b := w.a } : MWorld).byKeyCell kc = w.byKeyCell kc := by
+  simp only [byKeyCell]
+  by_cases h1 : w.a.kcell = kc <;> by_cases h2 : w.b.kcell = kc <;> simp [h1, h2]
+  exact absurd (h1.trans h2.symm) hw.2.1
+
+/-- **every entry point** other than ResetKey -/
+theorem step_facts (w : MWorld) (hw : w.WF) (hi : w.CapInv) (op : MOp) (hcap : op.CapOK)
+    (hnr : ∀ o h k, op ≠ .resetKey o h k) : StepFacts w (w.step op).1 := by
+  have hinv : ∀ o, (w.obj o).cap = 0 → (w.obj o).kv = [] := fun o => obj_capI w hi o
+  cases op with
+  | findKey o k => exact StepFacts.refl w hw hi
+  | keyBegin o f => exact StepFacts.refl w hw hi
+  | begin_ o f to => exact StepFacts.refl w hw hi
+  | end_ o => exact StepFacts.refl w hw hi
+  | kderef h => exact StepFacts.refl w hw hi
+  | kinc h n => exact StepFacts.refl w hw hi
+  | vderef it => exact StepFacts.refl w hw hi
+  | vinc it to => exact StepFacts.refl w hw hi
+  | add o k v nc => exact facts_of_eff w hw hi o (MMap.add_eff _ _ _ _ _) (MMap.add_capI (obj_capI w hi o) _ _ _ _ hcap)
+  | addAt o h v =>
+    simp only [step]
+    split
+    · rename_i r hr; exact facts_of_eff w hw hi o (MMap.addAt_eff hr) (MMap.addAt_capI (obj_capI w hi o) hr)
+    · exact StepFacts.refl w hw hi
+  | insertKey o k nc => exact facts_of_eff w hw hi o (MMap.insertKey_eff _ _ _ _) (MMap.insertKey_capI (obj_capI w hi o) _ _ _ hcap)
+  | addKey o h k nc =>
+    simp only [step]
+    split
+    · rename_i r hr; exact facts_of_eff w hw hi o (MMap.addKey_eff hr) (MMap.addKey_capI hcap hr)
+    · exact StepFacts.refl w hw hi
+  | removeAt o h i to =>
+    simp only [step]
+    split
+    · rename_i r hr; exact facts_of_eff w hw hi o (MMap.removeAt_eff hr) (MMap.removeAt_capI (obj_capI w hi o) hr)
+    · exact StepFacts.refl w hw hi
+  | remove o it to =>
+    simp only [step]
+    split
+    · rename_i r hr; exact facts_of_eff w hw hi o (MMap.remove_eff hr) (MMap.remove_capI (obj_capI w hi o) hr)
+    · exact StepFacts.refl w hw hi
+  | removeValues o h to =>
+    simp only [step]
+    split
+    · rename_i r hr; exact facts_of_eff w hw hi o (MMap.removeValues_eff hr) (MMap.removeValues_capI (obj_capI w hi o) hr)
+    · exact StepFacts.refl w hw hi
+  | removeKey o h nx =>
+    simp only [step]
+    split
+    · rename_i r hr; exact facts_of_eff w hw hi o (MMap.removeKey_eff hr) (MMap.removeKey_capI (obj_capI w hi o) hr)
+    · exact StepFacts.refl w hw hi
+  | removeKeyByKey o k => exact facts_of_eff w hw hi o (MMap.removeKeyByKey_eff _ _ _) (MMap.removeKeyByKey_capI (obj_capI w hi o) _ _)
+  | removeIf o mo r => exact facts_of_eff w hw hi o (MMap.removeIf_eff _ _ _ _) (MMap.removeIf_capI (obj_capI w hi o) _ _ _)
+  | resetKey o h k => exact absurd rfl (hnr o h k)
+  | makeIt o h i to => exact StepFacts.refl w hw hi
+  | makeMutable o it => exact StepFacts.refl w hw hi
+  | checkIt o it ae => exact StepFacts.refl w hw hi
+  | checkKey o h ae => exact StepFacts.refl w hw hi
+  | clear o => exact facts_of_eff w hw hi o (MMap.clear_eff _ _ (hinv o)) (MMap.clear_capI _ _)
+  | swap =>
+    obtain ⟨w1, w2, w3, w4, w5, w6⟩ := hw
+    refine ⟨⟨w6, fun e => w2 e.symm, fun e => w4 e.symm, fun e => w3 e.symm, fun e => w5 e.symm, w1⟩, ⟨hi.2, hi.1⟩,
+      fun _ => Nat.le_refl _, ?_, ?_, ?_⟩
+    · intro kc; simp only [step, vcellOf, byKeyCell_swap w ⟨w1, w2, w3, w4, w5, w6⟩ kc]
+    · intro kc hne; simp only [step, kshape, byKeyCell_swap w ⟨w1, w2, w3, w4, w5, w6⟩ kc] at hne; exact absurd rfl hne
+    · intro kc vc _ hne; simp only [step, content, byKeyCell_swap w ⟨w1, w2, w3, w4, w5, w6⟩ kc] at hne; exact absurd rfl hne
+
+/-- ResetKey keeps every counter, the cells and the invariants -/
+theorem step_resetKey (w : MWorld) (hw : w.WF) (hi : w.CapInv) (o : Bool) (h : HPos) (k : Nat) :
+    (w.step (.resetKey o h k)).1.WF ∧ (w.step (.resetKey o h k)).1.CapInv ∧ (w.step (.resetKey o h k)).1.cs = w.cs ∧
+    ∀ kc, (w.step (.resetKey o h k)).1.vcellOf kc = w.vcellOf kc := by
+  simp only [step]
+  split
+  · rename_i m' hm
+    obtain ⟨hc, hk, hv⟩ := MMap.resetKey_facts (obj_capI w hi o) hm
+    cases o
+    · simp only [obj, Bool.false_eq_true, ↓reduceIte] at hk hv
+      refine ⟨by simp only [setObj, Bool.false_eq_true, ↓reduceIte, WF, hk, hv]; exact hw, ⟨hc, hi.2⟩, rfl, ?_⟩
+      intro kc
+      simp only [vcellOf, byKeyCell, setObj, Bool.false_eq_true, ↓reduceIte, hk]
+      by_cases h : w.a.kcell = kc <;> simp [h, hv]
+    · simp only [obj, ↓reduceIte] at hk hv
+      refine ⟨by simp only [setObj, ↓reduceIte, WF, hk, hv]; exact hw, ⟨hi.1, hc⟩, rfl, ?_⟩
+      intro kc
+      simp only [vcellOf, byKeyCell, setObj, ↓reduceIte, hk]
+      by_cases h : w.a.kcell = kc <;> by_cases h' : w.b.kcell = kc <;> simp [h, h', hv]
+  · exact ⟨hw, hi, rfl, fun _ => rfl⟩
+
+/-! ### histories -/
+
+def run (w : MWorld) : List MOp → MWorld
+  | [] => w
+  | op :: ops => run (w.step op).1 ops
+
+theorem step_basic (w : MWorld) (hw : w.WF) (hi : w.CapInv) (op : MOp) (hcap : op.CapOK) :
+    (w.step op).1.WF ∧ (w.step op).1.CapInv ∧ (∀ c, w.cs c ≤ (w.step op).1.cs c) ∧ ∀ kc, (w.step op).1.vcellOf kc = w.vcellOf kc := by
+  by_cases h : ∃ o h k, op = .resetKey o h k
+  · obtain ⟨o, hh, k, rfl⟩ := h
+    have := step_resetKey w hw hi o hh k
+    exact ⟨this.1, this.2.1, fun c => by rw [this.2.2.1]; exact Nat.le_refl _, this.2.2.2⟩
+  · have := step_facts w hw hi op hcap (fun o hh k e => h ⟨o, hh, k, e⟩)
+    exact ⟨this.wf, this.inv, this.mono, this.vcell⟩
+
+theorem run_basic (ops : List MOp) : ∀ (w : MWorld), w.WF → w.CapInv → (∀ op ∈ ops, op.CapOK) →
+    (w.run ops).WF ∧ (w.run ops).CapInv ∧ (∀ c, w.cs c ≤ (w.run ops).cs c) ∧ ∀ kc, (w.run ops).vcellOf kc = w.vcellOf kc := by
+  induction ops with
+  | nil => intro w hw hi _; exact ⟨hw, hi, fun _ => Nat.le_refl _, fun _ => rfl⟩
+  | cons op ops ih =>
+    intro w hw hi hc
+    have h1 := step_basic w hw hi op (hc op (List.mem_cons_self ..))
+    have h2 := ih _ h1.1 h1.2.1 (fun x hx => hc x (List.mem_cons_of_mem _ hx))
+    exact ⟨h2.1, h2.2.1, fun c => Nat.le_trans (h1.2.2.1 c) (h2.2.2.1 c), fun kc => (h2.2.2.2 kc).trans (h1.2.2.2 kc)⟩
+
+/-- some call of the history (other than ResetKey) changed the key list or the nested capacity of the object with key cell `kc` -/
+def SomeKeyChange (kc : Nat) : MWorld → List MOp → Prop
+  | _, [] => False
+  | w, op :: ops => ((∀ o h k, op ≠ .resetKey o h k) ∧ (w.step op).1.kshape kc ≠ w.kshape kc) ∨ SomeKeyChange kc (w.step op).1 ops
+
+/-- some call of the history (other than ResetKey) changed anything in the object with key cell `kc` -/
+def SomeChange (kc : Nat) : MWorld → List MOp → Prop
+  | _, [] => False
+  | w, op :: ops => ((∀ o h k, op ≠ .resetKey o h k) ∧ (w.step op).1.content kc ≠ w.content kc) ∨ SomeChange kc (w.step op).1 ops
+
+theorem run_key_change (kc : Nat) (ops : List MOp) : ∀ (w : MWorld), w.WF → w.CapInv → (∀ op ∈ ops, op.CapOK) →
+    SomeKeyChange kc w ops → w.cs kc < (w.run ops).cs kc := by
+  induction ops with
+  | nil => intro w _ _ _ h; exact absurd h (by simp [SomeKeyChange])
+  | cons op ops ih =>
+    intro w hw hi hc hch
+    have hcap := hc op (List.mem_cons_self ..)
+    have hc' : ∀ x ∈ ops, x.CapOK := fun x hx => hc x (List.mem_cons_of_mem _ hx)
+    have h1 := step_basic w hw hi op hcap
+    have h2 := run_basic ops _ h1.1 h1.2.1 hc'
+    simp only [run]
+    rcases hch with ⟨hnr, hs⟩ | hch
+    · exact Nat.lt_of_lt_of_le ((step_facts w hw hi op hcap hnr).kbump kc hs) (h2.2.2.1 kc)
+    · exact Nat.lt_of_le_of_lt (h1.2.2.1 kc) (ih _ h1.1 h1.2.1 hc' hch)
+
+theorem run_change (kc vc : Nat) (ops : List MOp) : ∀ (w : MWorld), w.WF → w.CapInv → (∀ op ∈ ops, op.CapOK) →
+    w.vcellOf kc = some vc → SomeChange kc w ops → w.cs kc < (w.run ops).cs kc ∨ w.cs vc < (w.run ops).cs vc := by
+  induction ops with
+  | nil => intro w _ _ _ _ h; exact absurd h (by simp [SomeChange])
+  | cons op ops ih =>
+    intro w hw hi hc hvc hch
+    have hcap := hc op (List.mem_cons_self ..)
+    have hc' : ∀ x ∈ ops, x.CapOK := fun x hx => hc x (List.mem_cons_of_mem _ hx)
+    have h1 := step_basic w hw hi op hcap
+    have h2 := run_basic ops _ h1.1 h1.2.1 hc'
+    simp only [run]
+    rcases hch with ⟨hnr, hs⟩ | hch
+    · rcases (step_facts w hw hi op hcap hnr).vbump kc vc hvc hs with h | h
+      · left; exact Nat.lt_of_lt_of_le h (h2.2.2.1 kc)
+      · right; exact Nat.lt_of_lt_of_le h (h2.2.2.1 vc)
+    · rcases ih _ h1.1 h1.2.1 hc' ((h1.2.2.2 kc).trans hvc) hch with h | h
+      · left; exact Nat.lt_of_le_of_lt (h1.2.2.1 kc) h
+      · right; exact Nat.lt_of_le_of_lt (h1.2.2.1 vc) h
+
+/-- a key iterator made in `w0`, used after a history in which some call changed the key set / nested capacity of its map -/
+theorem history_key_stale_rejected (w0 : MWorld) (hw : w0.WF) (hi : w0.CapInv) (ops : List MOp) (hc : ∀ op ∈ ops, op.CapOK)
+    (kc : Nat) (op : MOp) (h : HPos) (hh : op.khandle = some h) (hk : h.kp = snap w0.cs kc) (hch : SomeKeyChange kc w0 ops)
+    (hlt : (w0.run ops).cs kc < w0.cs kc + W) : (w0.run ops).step op = (w0.run ops, none) :=
+  key_stale_rejected _ op h hh (hk ▸ snap_stale (run_key_change kc ops w0 hw hi hc hch) hlt)
+
+/-- a value iterator made in `w0` (value keeper on `vc`, key keeper on `kc`, both of one object), used after a history in
+    which some call changed anything in that object -/
+theorem history_value_stale_rejected (w0 : MWorld) (hw : w0.WF) (hi : w0.CapInv) (ops : List MOp) (hc : ∀ op ∈ ops, op.CapOK)
+    (kc vc : Nat) (hvc : w0.vcellOf kc = some vc) (op : MOp) (it : VIt) (hh : op.vhandle = some it) (hv : it.vidx.isSome = true)
+    (hvp : it.vp = snap w0.cs vc) (hkp : it.kit.kp = snap w0.cs kc) (hch : SomeChange kc w0 ops)
+    (hlt1 : (w0.run ops).cs kc < w0.cs kc + W) (hlt2 : (w0.run ops).cs vc < w0.cs vc + W) :
+    (w0.run ops).step op = (w0.run ops, none) := by
+  apply value_stale_rejected _ op it hh hv
+  rcases run_change kc vc ops w0 hw hi hc hvc hch with h | h
+  · right; rw [hkp]; exact snap_stale h hlt1
+  · left; rw [hvp]; exact snap_stale h hlt2
+
+end MWorld
+end Momo.Ver
+namespace Momo.Ver
+
+/-- mutating entry points of HashMultiMap for which "nothing changed" implies "no version increment" (`InsertKey` of a stored
+    key and `RemoveKey` of an absent key are no-ops).  `RemoveValues` / `Clear` / `Remove(filter)` increment unconditionally. -/
+def MOp.QuietMut : MOp → Prop
+  | .insertKey _ _ _ => True
+  | .removeKeyByKey _ _ => True
+  | _ => False
+
+namespace MWorld
+
+theorem byKeyCell_kcell {w : MWorld} {kc : Nat} {m : MMap} (h : w.byKeyCell kc = some m) : m.kcell = kc := by
+  simp only [byKeyCell] at h
+  split at h
+  · rename_i h1; simp only [Option.some.injEq] at h; subst h; simpa using h1
+  · split at h
+    · rename_i _ h2; simp only [Option.some.injEq] at h; subst h; simpa using h2
+    · simp at h
+
+theorem byKeyCell_obj (w : MWorld) (hw : w.WF) (o : Bool) : w.byKeyCell (w.obj o).kcell = some (w.obj o) := by
+  cases o
+  · simp [byKeyCell, obj]
+  · have : (w.a.kcell == w.b.kcell) = false := by simp [hw.2.1]
+    simp [byKeyCell, obj, this]
+
+theorem byKeyCell_cases {w : MWorld} {kc : Nat} {m : MMap} (h : w.byKeyCell kc = some m) : ∃ o, m = w.obj o := by
+  simp only [byKeyCell] at h
+  split at h
+  · simp only [Option.some.injEq] at h; exact ⟨false, h.symm⟩
+  · split at h
+    · simp only [Option.some.injEq] at h; exact ⟨true, h.symm⟩
+    · simp at h
+
+theorem byKeyCell_setObj_same (w : MWorld) (hw : w.WF) (o : Bool) (cs' : Cells) (m' : MMap) (hk : m'.kcell = (w.obj o).kcell) :
+    (w.setObj o cs' m').byKeyCell (w.obj o).kcell = some m' := by
+  cases o
+  · simp only [obj, Bool.false_eq_true, ↓reduceIte] at hk
+    simp [byKeyCell, setObj, obj, hk]
+  · simp only [obj, ↓reduceIte] at hk
+    have : (w.a.kcell == w.b.kcell) = false := by simp [hw.2.1]
+    simp [byKeyCell, setObj, obj, hk, this]
+
+/-- the cells of object `o` differ from the cells `kc`, `vc` of the other object -/
+theorem other_cells (w : MWorld) (hw : w.WF) (o : Bool) (kc vc : Nat) (hvc : w.vcellOf kc = some vc) (hne : (w.obj o).kcell ≠ kc) :
+    kc ≠ (w.obj o).kcell ∧ kc ≠ (w.obj o).vcell ∧ vc ≠ (w.obj o).kcell ∧ vc ≠ (w.obj o).vcell := by
+  obtain ⟨w1, w2, w3, w4, w5, w6⟩ := hw
+  simp only [vcellOf, Option.map_eq_some_iff] at hvc
+  obtain ⟨m, hm, hv⟩ := hvc
+  have hkc := byKeyCell_kcell hm
+  obtain ⟨o', rfl⟩ := byKeyCell_cases hm
+  subst hkc; subst hv
+  cases o <;> cases o'
+  · exact absurd rfl hne
+  · exact ⟨fun e => w2 e.symm, fun e => w4 e.symm, fun e => w3 e.symm, fun e => w5 e.symm⟩
+  · exact ⟨w2, w3, w4, w5⟩
+  · exact absurd rfl hne
+
+end MWorld
+end Momo.Ver
+namespace Momo.Ver
+namespace MWorld
+
+/-- entry points without a mutated object (queries, uses of iterators, ResetKey, Swap) increment nothing -/
+theorem step_cs_of_no_target (w : MWorld) (op : MOp) (ht : op.target = none) : (w.step op).1.cs = w.cs := by
+  cases op <;> simp only [MOp.target, reduceCtorEq] at ht <;> simp only [step]
+  case resetKey o h k =>
+    split
+    · exact setObj_cs _ _ _ _
+    · rfl
+
+/-- one call that cannot invalidate handles of the object with key cell `kc`: it throws, or it is not a mutating entry point,
+    or it mutates the other object, or it is a no-op `InsertKey` / `RemoveKey(key)` -/
+def QuietStep (kc : Nat) (w : MWorld) (op : MOp) : Prop :=
+  (w.step op).2 = none ∨ op.target = none ∨ (∃ o, op.target = some o ∧ (w.obj o).kcell ≠ kc) ∨
+  (op.QuietMut ∧ (w.step op).1.content kc = w.content kc)
+
+/-- **no increment without a change** (HashMultiMap) -/
+theorem step_quiet (w : MWorld) (hw : w.WF) (hi : w.CapInv) (op : MOp) (kc vc : Nat) (hvc : w.vcellOf kc = some vc)
+    (hq : QuietStep kc w op) : (w.step op).1.cs kc = w.cs kc ∧ (w.step op).1.cs vc = w.cs vc := by
+  have other : ∀ o, op.target = some o → (w.obj o).kcell ≠ kc →
+      (w.step op).1.cs kc = w.cs kc ∧ (w.step op).1.cs vc = w.cs vc := by
+    intro o ht hne
+    obtain ⟨_, _, nk, nv, hcs, _, _⟩ := step_eff w op o ht (obj_capI w hi o)
+    obtain ⟨h1, h2, h3, h4⟩ := other_cells w hw o kc vc hvc hne
+    rw [hcs]
+    exact ⟨bump2_other h1 h2, bump2_other h3 h4⟩
+  rcases hq with h | h | ⟨o, ht, hne⟩ | ⟨hqm, hcont⟩
+  · rw [step_reject_unchanged w op h]; exact ⟨rfl, rfl⟩
+  · rw [step_cs_of_no_target w op h]; exact ⟨rfl, rfl⟩
+  · exact other o ht hne
+  · cases op <;> simp only [MOp.QuietMut] at hqm
+    case insertKey o k nc =>
+      by_cases hne : (w.obj o).kcell = kc
+      · simp only [step] at hcont ⊢
+        rw [setObj_cs]
+        unfold MMap.insertKey at hcont ⊢
+        split
+        · exact ⟨rfl, rfl⟩
+        · rename_i habs
+          exfalso
+          simp only [habs, Bool.false_eq_true, ↓reduceIte] at hcont
+          rw [content, content, ← hne, byKeyCell_setObj_same w hw o _ _ (by rfl), byKeyCell_obj w hw o] at hcont
+          simp only [Option.map_some, Option.some.injEq] at hcont
+          exact List.cons_ne_self _ _ hcont
+      · exact other o rfl hne
+    case removeKeyByKey o k =>
+      by_cases hne : (w.obj o).kcell = kc
+      · simp only [step] at hcont ⊢
+        rw [setObj_cs]
+        unfold MMap.removeKeyByKey at hcont ⊢
+        split
+        · rename_i vs hvs
+          exfalso
+          simp only [hvs] at hcont
+          rw [content, content, ← hne, byKeyCell_setObj_same w hw o _ _ (by rfl), byKeyCell_obj w hw o] at hcont
+          simp only [Option.map_some, Option.some.injEq] at hcont
+          exact MMap.filter_key_ne hvs hcont
+        · exact ⟨rfl, rfl⟩
+      · exact other o rfl hne
+
+/-- every call of the history is a `QuietStep` for the object with key cell `kc` -/
+def AllQuiet (kc : Nat) : MWorld → List MOp → Prop
+  | _, [] => True
+  | w, op :: ops => QuietStep kc w op ∧ AllQuiet kc (w.step op).1 ops
+
+theorem run_quiet (kc vc : Nat) (ops : List MOp) : ∀ (w : MWorld), w.WF → w.CapInv → (∀ op ∈ ops, op.CapOK) →
+    w.vcellOf kc = some vc → AllQuiet kc w ops → (w.run ops).cs kc = w.cs kc ∧ (w.run ops).cs vc = w.cs vc := by
+  induction ops with
+  | nil => intro w _ _ _ _ _; exact ⟨rfl, rfl⟩
+  | cons op ops ih =>
+    intro w hw hi hc hvc hq
+    have hcap := hc op (List.mem_cons_self ..)
+    have hc' : ∀ x ∈ ops, x.CapOK := fun x hx => hc x (List.mem_cons_of_mem _ hx)
+    have h1 := step_basic w hw hi op hcap
+    have h2 := ih _ h1.1 h1.2.1 hc' ((h1.2.2.2 kc).trans hvc) hq.2
+    have h3 := step_quiet w hw hi op kc vc hvc hq.1
+    simp only [run]
+    exact ⟨h2.1.trans h3.1, h2.2.trans h3.2⟩
+
+theorem snap_eq_of_cell_eq' {cs cs' : Cells} {c : Nat} (h : cs' c = cs c) : snap cs c = snap cs' c := by
+  simp [snap, stored, h]
+
+/-- **no false positive over histories**, key iterators: a key iterator made in `w0` for a key that is still stored is accepted
+    by every entry point after any history of `QuietStep`s -/
+theorem history_key_fresh_accepted (w0 : MWorld) (hw : w0.WF) (hi : w0.CapInv) (ops : List MOp) (hc : ∀ op ∈ ops, op.CapOK)
+    (kc vc : Nat) (hvc : w0.vcellOf kc = some vc) (hq : AllQuiet kc w0 ops) (m : MMap) (hm : (w0.run ops).byKeyCell kc = some m)
+    (k : Nat) (mv : Bool) (vs : List Nat) (hk : m.vals k = some vs) (hcap : m.cap ≠ 0) :
+    let h : HPos := ⟨snap w0.cs kc, some k, mv⟩
+    let cs := (w0.run ops).cs
+    (m.kderef cs h).isSome = true ∧ (∀ v, (m.addAt cs h v).isSome = true) ∧ (∀ to, (m.removeValues cs h to).isSome = true) ∧
+    (∀ nx, (m.removeKey cs h nx).isSome = true) ∧ (∀ k', (m.resetKey cs h k').isSome = true) ∧
+    (∀ i to, i < vs.length → (m.removeAt cs h i to).isSome = true) ∧ (∀ i to, i ≤ vs.length → (m.makeIt cs h i to).isSome = true) := by
+  intro h cs
+  have hcell := (run_quiet kc vc ops w0 hw hi hc hvc hq).1
+  have hkc := byKeyCell_kcell hm
+  have : h = ⟨snap cs m.kcell, some k, mv⟩ := by
+    simp only [h, hkc]; rw [snap_eq_of_cell_eq' hcell]
+  rw [this]
+  exact MMap.key_fresh_accepted m cs k mv vs hk hcap
+
+/-- … value iterators: made in `w0` (keepers on both versions of one object), pointing at a value that is still stored -/
+theorem history_value_fresh_accepted (w0 : MWorld) (hw : w0.WF) (hi : w0.CapInv) (ops : List MOp) (hc : ∀ op ∈ ops, op.CapOK)
+    (kc vc : Nat) (hvc : w0.vcellOf kc = some vc) (hq : AllQuiet kc w0 ops) (m : MMap) (hm : (w0.run ops).byKeyCell kc = some m)
+    (k i : Nat) (mv : Bool) (vs : List Nat) (hk : m.vals k = some vs) (hi' : i < vs.length) :
+    let it : VIt := ⟨⟨snap w0.cs kc, some k, mv⟩, snap w0.cs vc, some i⟩
+    let cs := (w0.run ops).cs
+    (m.vderef cs it).isSome = true ∧ (∀ to, (MMap.vinc cs it to).isSome = true) ∧ (∀ to, (m.remove cs it to).isSome = true) ∧
+    (m.makeMutable cs it).isSome = true ∧ (∀ ae, (m.checkIt cs it ae).isSome = true) := by
+  intro it cs
+  have hcells := run_quiet kc vc ops w0 hw hi hc hvc hq
+  have hkc := byKeyCell_kcell hm
+  have hvc' : m.vcell = vc := by
+    have := (run_basic ops w0 hw hi hc).2.2.2 kc
+    rw [hvc, vcellOf, hm] at this
+    simpa using this
+  have : it = ⟨⟨snap cs m.kcell, some k, mv⟩, snap cs m.vcell, some i⟩ := by
+    simp only [it, hkc, hvc']; rw [snap_eq_of_cell_eq' hcells.1, snap_eq_of_cell_eq' hcells.2]
+  rw [this]
+  exact MMap.value_fresh_accepted m cs k i mv vs hk hi'
+
+end MWorld
+end Momo.Ver
+
+namespace Momo.Ver
+
+/-- **empty / default-constructed key iterator where a key is required** (`Find` of an absent key, `GetKeyBounds().GetEnd()`) -/
+theorem MMap.key_empty_rejected (m : MMap) (cs : Cells) (h : HPos) (he : h.elem = none) :
+    m.kderef cs h = none ∧ (∀ n, h.inc cs n = none) ∧ (∀ v, m.addAt cs h v = none) ∧ (∀ i to, m.removeAt cs h i to = none) ∧
+    (∀ to, m.removeValues cs h to = none) ∧ (∀ nx, m.removeKey cs h nx = none) ∧ (∀ k, m.resetKey cs h k = none) ∧
+    (∀ i to, i ≠ 0 → m.makeIt cs h i to = none) := by
+  have hd : h.deref cs = none := by
+    unfold HPos.deref; cases chk (h.kp.check cs) <;> simp [he]
+  have hm : m.mutKey cs h = none := by
+    unfold MMap.mutKey; cases chk (h.kp.checkAt cs m.kcell true) <;> simp [hd]
+  refine ⟨by simp [MMap.kderef, hd], fun n => by simp [HPos.inc, hd], fun v => by simp [MMap.addAt, hm],
+    fun i to => by simp [MMap.removeAt, MMap.kderef, hd], fun to => by simp [MMap.removeValues, hm],
+    fun nx => by simp [MMap.removeKey, hm], fun k => ?_, fun i to hi => ?_⟩
+  · unfold MMap.resetKey; cases chk (h.kp.checkAt cs m.kcell false) <;> simp [he]
+  · unfold MMap.makeIt
+    have : (h.elem.isNone && i == 0) = false := by simp [hi]
+    simp only [this, Bool.false_eq_true, ↓reduceIte]
+    cases chk (h.kp.checkAt cs m.kcell true) <;> simp [MMap.kderef, hd]
+
+end Momo.Ver
